@@ -50,6 +50,7 @@ pub(crate) mod verif_sem {
         let mut r3: ManuallyDrop<Option<GenericSemaphoreReleaser<'_, M>>> = ManuallyDrop::new(None);
         let mut held = [0usize; 4]; // amount each live releaser will give back
         let mut has = [false; 4];
+        if (p & P18) != 0 { arm_alloc(); }
 
         let mut alive = [true; K];
         let mut pending = [false; K];
@@ -215,6 +216,7 @@ pub(crate) mod verif_sem {
                 }
             }
 
+            oracle!(p, P18, alloc_events() == 0, "C18 semaphore: an operation allocated or freed heap memory");
             // ================= oracles after every operation =================
             oracle!(p, P05, sem.permits() == ledger, "C05 semaphore: permits() differs from initial + released - outstanding");
             let wk0 = pending[0] && (if lw[0] == 0 { c0a.n() } else { c0b.n() }) > snap[0];
@@ -590,6 +592,18 @@ pub(crate) mod verif_sem {
     #[cfg(kani)]
     mod proofs {
         use super::*;
+        #[kani::proof]
+        #[kani::unwind(3)]
+        fn repoll_panics() {
+            let sem = GenericSemaphore::<NoopLock>::new(kani::any(), 2);
+            repoll_after_ready(sem.acquire(1));
+        }
+        #[kani::proof]
+        #[kani::unwind(6)]
+        #[kani::stub(alloc::alloc::alloc, crate::verif::common::stub_alloc)]
+        #[kani::stub(alloc::alloc::dealloc, crate::verif::common::stub_dealloc)]
+        #[kani::stub(alloc::alloc::realloc, crate::verif::common::stub_realloc)]
+        fn hist_c18_p2_n5() { let _ = hist::<NoopLock, _>(&mut KaniSrc, 2 | (2 << 2), 5, P18); }
 
         macro_rules! hist_proof {
             ($name:ident, $lock:ty, $n:expr, $p:expr, $cfg:expr, $unw:expr) => {
